@@ -34,7 +34,7 @@ type leafCase struct {
 
 type synthKey struct{ inner, factor ssa.Value }
 
-var synthDur = map[synthKey]ssa.Value{}
+var synthDur cmap[synthKey, ssa.Value]
 
 // expandCases expands nested phis into (guards, value) leaves.
 func expandCases(v ssa.Value, inherited []guard, depth int) []leafCase {
@@ -53,10 +53,10 @@ func expandCases(v ssa.Value, inherited []guard, depth int) []leafCase {
 						var out []leafCase
 						for _, lf := range expandCases(inner, inherited, depth) {
 							key := synthKey{lf.val, k}
-							sv, have := synthDur[key]
+							sv, have := synthDur.get(key)
 							if !have {
 								sv = &ssa.BinOp{Op: token.MUL, X: &ssa.Convert{X: lf.val}, Y: k}
-								synthDur[key] = sv
+								synthDur.set(key, sv)
 							}
 							out = append(out, leafCase{val: sv, guards: lf.guards, pred: lf.pred})
 						}
